@@ -67,6 +67,17 @@ class AddBlock(LibraryMiddleware):
         return library
 
 
+class RenameStrings(BlockMiddleware):
+    """in-place probe that changes the KEY of every @string (upper-case): the library handed on must index the new keys"""
+
+    def __init__(self):
+        super().__init__(allow_inplace_modification=True, allow_parallel_execution=True)
+
+    def transform_string(self, string, library):
+        string.key = string.key.upper()
+        return string
+
+
 class Splice(BlockMiddleware):
     """probe returning a configurable kind of result for entries"""
 
@@ -286,6 +297,14 @@ def compose_parse(text, append_spec):
     return desc(lib)
 
 
+def drv_rename(text):
+    lib = EP.parse_string('@string{ab = "x"}\n@string{Ab = "y"}\n' + text, parse_stack=[RenameStrings()])
+    blocks = lib.blocks
+    live = [b for b in blocks if isinstance(b, M.String)]
+    return ([(type(b).__name__, getattr(b, "key", None)) for b in blocks[:2]], sorted(k for k in lib.strings_dict),
+            all(lib.strings_dict[b.key] is b for b in live), len(live))
+
+
 def drv_repeat(text):
     """successive calls must not influence each other (no state kept between calls)"""
     lib = EP.parse_string(text)
@@ -310,7 +329,16 @@ def drv_splice(text, kind):
     return got, shape, n_entries
 
 
-STACK_VARIANTS = (None, "append-iter", "stack-iter", "stack-empty", "prepend-iter", "unparse-iter", "unparse-empty")
+STACK_VARIANTS = (None, "append-iter", "stack-iter", "stack-empty", "prepend-iter", "unparse-iter", "unparse-empty", "format")
+
+
+def custom_format():
+    f = WR.BibtexFormat()
+    f.indent = "  "
+    f.trailing_comma = True
+    f.value_column = 9
+    f.block_separator = "\n\n\n"
+    return f
 
 
 def file_kwargs(sv):
@@ -329,6 +357,8 @@ def file_kwargs(sv):
         wf, ws = {"parse_stack": iter(mk_stack(["b1", "l2"]))}, {"unparse_stack": mk_stack(["b1", "l2"])}
     elif sv == "unparse-empty":
         wf, ws = {"parse_stack": ()}, {"unparse_stack": []}
+    elif sv == "format":
+        wf, ws = {"bibtex_format": custom_format()}, {"bibtex_format": custom_format()}
     return pf, ps, wf, ws
 
 
@@ -387,7 +417,7 @@ def sym_doc(eng, extra=""):
 
 def task_stack(which, stack_spec, extra_spec, how, doc="entry"):
     eng = Engine()
-    eng.own_class(TagFields, TagLib, Splice, AddBlock, SpliceAll)
+    eng.own_class(TagFields, TagLib, Splice, AddBlock, SpliceAll, RenameStrings)
     rec = Recorder(eng)
     if doc == "entry":
         text, syms = sym_doc(eng)
@@ -433,7 +463,7 @@ def task_stack(which, stack_spec, extra_spec, how, doc="entry"):
 
 def task_repeat():
     eng = Engine()
-    eng.own_class(TagFields, TagLib, Splice, AddBlock, SpliceAll)
+    eng.own_class(TagFields, TagLib, Splice, AddBlock, SpliceAll, RenameStrings)
     rec = Recorder(eng)
     text, syms = sym_doc(eng)
     E = eng.I.models.eq_simple
@@ -465,7 +495,7 @@ def task_repeat():
 
 def task_splice(kind):
     eng = Engine()
-    eng.own_class(TagFields, TagLib, Splice, AddBlock, SpliceAll)
+    eng.own_class(TagFields, TagLib, Splice, AddBlock, SpliceAll, RenameStrings)
     rec = Recorder(eng)
     text, syms = sym_doc(eng)
     worlds = eng.run(drv_splice, [text, kind])
@@ -505,7 +535,7 @@ def task_splice(kind):
 def task_spliceall():
     """transform_block-level probe for every block type, failed blocks included; target type and result kind symbolic"""
     eng = Engine()
-    eng.own_class(TagFields, TagLib, Splice, AddBlock, SpliceAll)
+    eng.own_class(TagFields, TagLib, Splice, AddBlock, SpliceAll, RenameStrings)
     rec = Recorder(eng)
     tail = eng.sym_str("t", 2, SIGMA_S)
     text = mk(tuple(ALL_DOC) + chars(tail))
@@ -544,6 +574,38 @@ def task_spliceall():
         rec.require(W, bad, "splice-semantics-every-type", rp)
         if "F" in shape:
             rec.witness("failed-block-spliced", W, E(target, "F"))
+    return rec.result(worlds=len(worlds))
+
+
+def task_rename():
+    """a block middleware that changes keys in place: the result is a library built from the returned blocks (its views
+    and its duplicate detection see the NEW keys: 'ab' and 'Ab' both become 'AB')"""
+    eng = Engine()
+    eng.own_class(TagFields, TagLib, Splice, AddBlock, SpliceAll, RenameStrings)
+    rec = Recorder(eng)
+    text, syms = sym_doc(eng)
+    worlds = eng.run(drv_rename, [text])
+    exp = ([("String", "AB"), ("DuplicateBlockKeyBlock", "AB")], ["AB"], True, 1)
+
+    def rp(m):
+        import logging
+        logging.disable(logging.CRITICAL)
+        t = eng.model_str(m, text)
+        try:
+            got = drv_rename(t)
+        except Exception as ex:  # noqa
+            from pysym.harness import guard_repo_exception
+            guard_repo_exception(ex)
+            return {"input": t, "observed": f"raised {type(ex).__name__}: {ex}", "expected": "library re-indexed"}
+        if got == exp:
+            return None
+        return {"input": t, "observed": list(got), "expected": list(exp)}
+    for W in worlds:
+        if W.exc is not None:
+            rec.require(W, True, "no-other-exception", rp)
+            continue
+        rec.require(W, W.result != exp, "result-is-a-library-of-the-returned-blocks", rp)
+        rec.witness("keys-renamed", W)
     return rec.result(worlds=len(worlds))
 
 
@@ -655,7 +717,7 @@ def native_filelog(enc, target_kind, sv=None):
 def task_filelog(enc, target_kind, sv=None):
     """concrete-mode run of the file wrappers against the open() stub: exact call log"""
     eng = Engine()
-    eng.own_class(TagFields, TagLib, Splice, AddBlock, SpliceAll)
+    eng.own_class(TagFields, TagLib, Splice, AddBlock, SpliceAll, RenameStrings)
     rec = Recorder(eng)
     content = "@a{k, t = {v}}\n"
     log = []
@@ -696,7 +758,7 @@ def main():
     chk.assumptions = ["real codecs / the OS are outside the claim: open() is a stub that records its arguments; only the pass-through of path/encoding and the equality with parse_string(content) / write_string(...) are claimed",
                        "probe middlewares are the three classes defined in checks/c20.py"]
     chk.stubs = ["builtins.open -> recording stub file"]
-    chk.expected_vacuity = ["both-given-rejected", "probes-applied", "entry-spliced", "failed-block-spliced", "file-parsed", "file-log-checked", "repeated-calls"]
+    chk.expected_vacuity = ["both-given-rejected", "probes-applied", "entry-spliced", "failed-block-spliced", "keys-renamed", "file-parsed", "file-log-checked", "repeated-calls"]
     deep = chk.tier == "thorough"
     TAIL[0] = 3 if deep else 2
     stacks = [None, [], ["b1"], ["b1", "l2"], ["l2", "b1"]] + ([["b1", "b2", "l3"], ["l3", "b2", "b1"]] if deep else [["b1", "l2", "b3"]])
@@ -720,6 +782,7 @@ def main():
     for kind in SPLICE:
         chk.add_task(f"splice-{kind}", task_splice, kind=kind)
     chk.add_task("splice-every-type", task_spliceall)
+    chk.add_task("rename-keys-in-place", task_rename)
     chk.add_task("repeated-calls", task_repeat)
     for enc, tk in itertools.product(("utf-8", "latin-1", "gbk", "utf-16"), ("path", "obj")):
         chk.add_task(f"files-{enc}-{tk}", task_files, enc=enc, target_kind=tk)
